@@ -1010,6 +1010,8 @@ class FunctionalQuadraticPerturb(Functional):
             grad_lipschitz = func.grad_lipschitz
         else:
             grad_lipschitz = (func.grad_lipschitz + self.linear_term.norm())
+        # The quadratic term adds `2 * quadratic_coeff * x` to the gradient
+        grad_lipschitz = grad_lipschitz + 2 * abs(self.__quadratic_coeff)
 
         constant = func.domain.field.element(constant)
         if constant.imag != 0:
